@@ -106,6 +106,10 @@ def run(ctx):
         "./obfs/": ["harness/extras/obfs/c03_test.go"],
         "./realm/": ["harness/extras/realm/c03_test.go"],
         "./outbounds/speedtest/": ["harness/extras/outbounds/speedtest/c03_test.go"]})
+    # the server's UDP session manager is one of the stateful receivers behind the decoders: the C07 driver (gated
+    # interleavings, slow dials, idle expiry racing late fragments ...) is run here as well, and every Panic event it
+    # records is judged by Prop_C03 (its other events are ignored by this monitor)
+    ctx.go_test("core", "./server/", "TestVerif_C07$", ["harness/core/server/c07_test.go"], timeout=240)
     ctx.validate("Prop_C03", sig=sig, distinct=distinct)
     ctx.assumptions += [
         "slices handed to the decoders have cap == len (a larger capacity can hide an out-of-range slice expression)",
